@@ -11,10 +11,10 @@ import (
 
 func init() {
 	register(&propCheck{
-		id:    "C08",
-		level: "other",
-		explanation: "Static decision of the plumbing of exclusion patterns, which is where a compiling mutation hides (every pattern parameter is variadic: omitting it compiles). Over E, the functions of package filesystem that carry exclusion patterns (a `...string` exclusion parameter or a []*regexp.Regexp): (E1) never dropped — every call from a member of E to another member passes, in the callee's exclusion position, a value derived from the caller's own patterns; a call with zero variadic patterns, or a call (directly or through helpers that carry no patterns) to the pattern-less sibling of a recursive operation is a violation; (E2) always used — every member forwards or applies its patterns; (E3) every loop over a directory listing in a member iterates a list that was filtered with the patterns, or guards each use of the item with !IsPathExcluded(item, patterns): this is what keeps everything beneath an excluded directory untouched — it is never descended; (E4) in every exported member taking pattern strings, a compilation of the patterns whose error is an error exit precedes every mutating effect, so invalid patterns are rejected before anything is touched. Decided on SSA with an effect summary of the package; nothing is executed. Not decided: what the expanded regular expressions match on actual names, completeness ('does process every entry none of whose components matches').",
-		run:   runC08,
+		id:              "C08",
+		level:           "other",
+		explanation:     "Static decision of the plumbing of exclusion patterns, which is where a compiling mutation hides (every pattern parameter is variadic: omitting it compiles). Over E, the functions of package filesystem that carry exclusion patterns (a `...string` exclusion parameter or a []*regexp.Regexp): (E1) never dropped — every call from a member of E to another member passes, in the callee's exclusion position, a value derived from the caller's own patterns; a call with zero variadic patterns, or a call (directly or through helpers that carry no patterns) to the pattern-less sibling of a recursive operation is a violation; (E2) always used — every member forwards or applies its patterns; (E3) every loop over a directory listing in a member iterates a list that was filtered with the patterns, or guards each use of the item with !IsPathExcluded(item, patterns): this is what keeps everything beneath an excluded directory untouched — it is never descended; (E4) in every exported member taking pattern strings, a compilation of the patterns whose error is an error exit precedes every mutating effect, so invalid patterns are rejected before anything is touched. Decided on SSA with an effect summary of the package; nothing is executed. Not decided: what the expanded regular expressions match on actual names, completeness ('does process every entry none of whose components matches').",
+		run:             runC08,
 		thoroughConfigs: []string{"darwin/amd64", "windows/amd64"},
 		assumptions: []string{
 			"regexp.MatchString on the expanded pattern list implements 'name matched in full by a pattern' for the names the property quantifies over",
@@ -93,6 +93,7 @@ func runC08(c *Ctx) {
 	c.rule("E5", "inside loops over directory listings the patterns are applied to the listed names, not to joined paths", 1)
 	c.rule("E6", "patterns are compiled one at a time: the regexp.Compile of NewExclusionRegexList sits in a loop over the patterns, its argument is not a concatenation of several of them, and a failed compilation is an error exit", 1)
 	c.rule("E7", "NewExclusionRegexList looks at every pattern it is given: its loops over the patterns have no exit other than the end of the list and the error exit of a failed compilation", 1)
+	c.rule("E9", "exported functions taking pattern strings never report success without having compiled them: an invalid pattern is rejected even when there is nothing to do", 8)
 	c.rule("E4", "exported functions taking pattern strings compile them (error → error exit) before their first mutating effect", 8)
 
 	c.c08CompileEach()
@@ -390,6 +391,7 @@ func (s *c08State) compileFirst(members []*ssa.Function) {
 	c := s.c
 	// compileFirst(g): g takes pattern strings and every mutating effect of g is preceded by a compile whose error exits
 	memo := map[*ssa.Function]int{}
+	pointsOf := map[*ssa.Function][]*ssa.Call{}
 	var ok func(g *ssa.Function) (bool, ssa.Instruction)
 	ok = func(g *ssa.Function) (bool, ssa.Instruction) {
 		if v, seen := memo[g]; seen {
@@ -433,6 +435,7 @@ func (s *c08State) compileFirst(members []*ssa.Function) {
 				}
 			}
 		})
+		pointsOf[g] = points
 		var bad ssa.Instruction
 		allInstrs(g, func(in ssa.Instruction) {
 			if bad != nil {
@@ -478,6 +481,32 @@ func (s *c08State) compileFirst(members []*ssa.Function) {
 			continue
 		}
 		good, bad := ok(f)
+		// E9: "invalid patterns are rejected": no return that may report success is reached without the patterns
+		// having been compiled (and found valid) on the way — also when there turns out to be nothing to do.
+		{
+			pts := pointsOf[f]
+			isPoint := func(i ssa.Instruction) bool {
+				for _, p := range pts {
+					if ssa.Instruction(p) == i {
+						return true
+					}
+				}
+				return false
+			}
+			var early ssa.Instruction
+			if res := f.Signature.Results(); res.Len() > 0 && isErrorType(res.At(res.Len()-1).Type()) {
+				early = pathPruned(f, nil, isPoint, func(i ssa.Instruction) bool {
+					r, isRet := i.(*ssa.Return)
+					return isRet && !isErrorExit(f, r)
+				}, nil)
+			}
+			k9 := fname(f) + "/always-rejected"
+			if early == nil {
+				c.ok("E9", k9, c.pos(f.Pos()), "every return that may report success follows the compilation of the patterns")
+			} else {
+				c.violate("E9", k9, c.ipos(early), "this return may report success although the exclusion patterns were never compiled: when there is nothing to do (missing or empty directory, …) an invalid pattern is accepted silently instead of being rejected with the 'invalid' kind")
+			}
+		}
 		key := fname(f) + "/compile-first"
 		if good {
 			c.ok("E4", key, c.pos(f.Pos()), "patterns compiled (error → exit) before the first mutating effect")
@@ -505,7 +534,9 @@ func (c *Ctx) c08CompileEach() {
 	c.FuncsSeen[fname(f)] = true
 	key := fname(f) + "/compile-each"
 	var compiles []*ssa.Call
-	isCompile := func(n string) bool { return n == "regexp.Compile" || n == "regexp.MustCompile" || n == "regexp.CompilePOSIX" }
+	isCompile := func(n string) bool {
+		return n == "regexp.Compile" || n == "regexp.MustCompile" || n == "regexp.CompilePOSIX"
+	}
 	allInstrs(f, func(in ssa.Instruction) {
 		if cl, ok := in.(*ssa.Call); ok {
 			n := calleeFull(&cl.Call)
